@@ -18,6 +18,9 @@ pub struct PipeCfg {
     pub pend_num: u64,
     pub pend_den: u64,
     pub capacity: usize,
+    /// written bytes are held back until the writer flushes (or 8 KiB have piled up), the way a
+    /// `BufWriter` or a record-oriented stream behaves: a transport user that forgets to flush stalls
+    pub flush_gated: bool,
 }
 
 impl PipeCfg {
@@ -29,16 +32,19 @@ impl PipeCfg {
             pend_num: rng.below(3),
             pend_den: 4,
             capacity: *rng.pick(&[64usize, 1024, 65536]),
+            flush_gated: rng.chance(1, 3),
         }
     }
     pub fn plain() -> Self {
-        PipeCfg { max_read: 65536, max_write: 65536, pend_num: 0, pend_den: 1, capacity: 1 << 20 }
+        PipeCfg { max_read: 65536, max_write: 65536, pend_num: 0, pend_den: 1, capacity: 1 << 20, flush_gated: false }
     }
 }
 
 #[derive(Default)]
 struct Dir {
     buf: VecDeque<u8>,
+    /// flush-gated pipes: written but not yet flushed
+    staged: Vec<u8>,
     read_waker: Option<Waker>,
     write_waker: Option<Waker>,
     writer_closed: bool,
@@ -251,7 +257,15 @@ impl AsyncWrite for PipeEnd {
         }
         let want = s.rng.urange(1, cfg.max_write.max(1));
         let n = want.min(space).min(data.len());
-        s.dirs[out].buf.extend(&data[..n]);
+        if cfg.flush_gated {
+            s.dirs[out].staged.extend_from_slice(&data[..n]);
+            if s.dirs[out].staged.len() >= 8192 {
+                let st = std::mem::take(&mut s.dirs[out].staged);
+                s.dirs[out].buf.extend(st);
+            }
+        } else {
+            s.dirs[out].buf.extend(&data[..n]);
+        }
         s.dirs[out].total += n as u64;
         let tap_cap = if std::env::var("VERIF_DUMP").is_ok() { 1 << 20 } else { 64 };
         if s.tap[side].len() < tap_cap {
@@ -267,11 +281,24 @@ impl AsyncWrite for PipeEnd {
         Poll::Ready(Ok(n))
     }
     fn poll_flush(self: Pin<&mut Self>, _: &mut Context<'_>) -> Poll<io::Result<()>> {
+        let mut s = self.shared.lock().unwrap();
+        let out = self.side;
+        if !s.dirs[out].staged.is_empty() {
+            let st = std::mem::take(&mut s.dirs[out].staged);
+            s.dirs[out].buf.extend(st);
+            if let Some(w) = s.dirs[out].read_waker.take() {
+                w.wake();
+            }
+        }
         Poll::Ready(Ok(()))
     }
     fn poll_shutdown(self: Pin<&mut Self>, _: &mut Context<'_>) -> Poll<io::Result<()>> {
         let mut s = self.shared.lock().unwrap();
         let out = self.side;
+        if !s.dirs[out].staged.is_empty() {
+            let st = std::mem::take(&mut s.dirs[out].staged);
+            s.dirs[out].buf.extend(st);
+        }
         s.dirs[out].writer_closed = true;
         if let Some(w) = s.dirs[out].read_waker.take() {
             w.wake();
